@@ -29,10 +29,10 @@ theorem bottomsSet_ok {b : List (Char × List Nat)} (h : BottomsOK b) (mk : Char
   · exact h k l (List.mem_filter.mp hkl).1
 
 /-- the inner loop is total on the shape it maintains -/
-theorem matchInner_total {lo hi r0 : Nat} {fns : Nat → Option Wrap} {mk : Char} {pre : List Node}
-    {oS : Nat} :
+theorem matchInner_total {lo hi r0 : Nat} {fns : Nat → Option Wrap} {mk : Char} {room : Nat}
+    {pre : List Node} {oS : Nat} :
     ∀ (fuel : Nat) (opener : Marker) (ms : MatchSt), IShape lo hi r0 pre oS opener ms →
-      ∃ r, matchInner fns mk pre.length fuel opener ms = .ok r := by
+      ∃ r, matchInner fns mk room pre.length fuel opener ms = .ok r := by
   intro fuel
   induction fuel with
   | zero => intro opener ms _; exact ⟨_, rfl⟩
@@ -41,6 +41,8 @@ theorem matchInner_total {lo hi r0 : Nat} {fns : Nat → Option Wrap} {mk : Char
     unfold matchInner
     split
     · next hpos =>
+      split
+      · exact ⟨_, rfl⟩
       simp only
       split
       · exact ⟨_, rfl⟩
@@ -96,18 +98,25 @@ theorem matchInner_total {lo hi r0 : Nat} {fns : Nat → Option Wrap} {mk : Char
         · omega
     · exact ⟨_, rfl⟩
 
-/-- the outer loop is total: every index it reads is inside the list -/
-theorem matchOuter_total {lo hi r0 : Nat} {fns : Nat → Option Wrap} {mk : Char} (minIdx : Nat) :
-    ∀ (k : Nat) (ms : MatchSt), MInv lo hi r0 ms → minIdx + k ≤ ms.children.length →
-      ∃ ms', matchOuter fns mk minIdx k ms = .ok ms' := by
+/-- the outer loop is total: every index it reads (`idx` and `idx + 1`) is inside the list -/
+theorem matchOuter_total {lo hi r0 : Nat} {fns : Nat → Option Wrap} {mk : Char} (room minIdx : Nat) :
+    ∀ (k : Nat) (ms : MatchSt), MInv lo hi r0 ms → minIdx + k < ms.children.length →
+      ∃ ms', matchOuter fns mk room minIdx k ms = .ok ms' := by
   intro k
   induction k with
   | zero => intro ms _ _; exact ⟨_, rfl⟩
   | succ k ih =>
-    intro ms hm hlenk
-    unfold matchOuter
+    intro ms0 hm0 hlenk
+    have hidx1 : minIdx + k + 1 < ms0.children.length := by omega
+    rw [matchOuter_succ, List.getElem?_eq_getElem hidx1]
     simp only
-    have hidx : minIdx + k < ms.children.length := by omega
+    generalize ms0.children[minIdx + k + 1] = nxt
+    -- the depth bookkeeping does not touch what `MInv` / `IShape` talk about
+    generalize hmsdef : ({ ms0 with innerDepth := max ms0.innerDepth (wrapDepth nxt) } : MatchSt) = ms
+    have hm : MInv lo hi r0 ms := by rw [← hmsdef]; exact hm0
+    have hidx : minIdx + k < ms.children.length := by rw [← hmsdef]; simp only; omega
+    clear hmsdef hm0 hlenk hidx1
+    unfold matchOuterBody
     rw [List.getElem?_eq_getElem hidx]
     simp only
     generalize htokdef : ms.children[minIdx + k] = tok
@@ -139,7 +148,7 @@ theorem matchOuter_total {lo hi r0 : Nat} {fns : Nat → Option Wrap} {mk : Char
       -- the inner loop (or nothing)
       have hgo : ∃ opener' ms1,
           (if (opener.open_ && opener.marker == ms.closer.marker && !isOddMatch opener ms.closer) = true
-            then matchInner fns mk (minIdx + k) ms.closer.remaining opener ms
+            then matchInner fns mk room (minIdx + k) ms.closer.remaining opener ms
             else .ok (opener, ms)) = .ok (opener', ms1) ∧ IShape lo hi r0 pre oS opener' ms1 := by
         split
         · rw [← hlen]
@@ -194,9 +203,9 @@ theorem matchOuter_total {lo hi r0 : Nat} {fns : Nat → Option Wrap} {mk : Char
 
 /-- `scan_and_match_delimiters` does not panic -/
 theorem scanAndMatch_total {src : List Char} {m : Srcmap} {lo pos : Nat} {fns : Nat → Option Wrap}
-    {mk : Char} {cs0 : List Node} {x : Node} {closer : Marker} {b : List (Char × List Nat)}
+    {mk : Char} {room : Nat} {cs0 : List Node} {x : Node} {closer : Marker} {b : List (Char × List Nat)}
     (hi : RI src m lo pos (cs0 ++ [x])) (hx : x.asMarker = some closer) (hb : BottomsOK b) :
-    ∃ out b', scanAndMatch fns mk (cs0 ++ [x]) b = .ok (out, b') ∧ BottomsOK b' := by
+    ∃ out b', scanAndMatch fns mk room (cs0 ++ [x]) b = .ok (out, b') ∧ BottomsOK b' := by
   unfold scanAndMatch
   split
   · exact ⟨_, _, rfl, hb⟩
@@ -224,11 +233,11 @@ theorem scanAndMatch_total {src : List Char} {m : Srcmap} {lo pos : Nat} {fns : 
       ⟨cS, ⟨hinit, hi.deep.left, hi.markers.left⟩, ⟨cS, cE, hcr, Nat.le_refl _, hfit, hbT⟩, Or.inl rfl⟩
     generalize hmin : (bottomsGet b mk)[(if closer.open_ = true then 1 else 0) * 3 + closer.length % 3]'(by
       rw [hbl]; exact hparam) = minIdx
-    have hout : ∃ ms, matchOuter fns mk minIdx (cs0.length - 1 - minIdx)
+    have hout : ∃ ms, matchOuter fns mk room minIdx (cs0.length - 1 - minIdx)
         { closer := closer, closerRange := x.range, children := cs0, newMin := cs0.length - 1 } = .ok ms := by
       by_cases hk : cs0.length - 1 - minIdx = 0
       · rw [hk]; exact ⟨_, rfl⟩
-      · exact matchOuter_total minIdx _ _ hm0 (by simp only; omega)
+      · exact matchOuter_total room minIdx _ _ hm0 (by simp only; omega)
     obtain ⟨ms, hms⟩ := hout
     rw [hms]
     simp only
